@@ -560,3 +560,20 @@ V("C19", "epsilon-too-large", "fire", (REP, "unmaintainable = ceil((profile[3] /
 V("C19", "summary-table-drops-verbose", "fire", ("codelimit/common/SummaryTable.py", "easy_verbose_text = Text(f\"{easy + verbose:n}%\")", "easy_verbose_text = Text(f\"{easy:n}%\")"),
   "shown triple no longer sums to 100", "displayed-triple")
 V("C19", "verdict-ge21-silent", "silent", (FT, "    elif hard_to_maintain > 20:", "    elif hard_to_maintain >= 21:"), "same integer region")
+
+# ------------------------------------------------------------------ C17
+SRC = "codelimit/common/source_utils.py"
+V("C17", "marker-contains", "fire", (SRC, "            return value.startswith(\"nocl\")", "            return \"nocl\" in value"), "a comment that mentions nocl later suppresses", "not-a-prefix-test")
+V("C17", "marker-before-lower", "fire", (SRC, "            value = token.value.lower()\n", "            value = token.value\n"), "NOCL no longer suppresses", "case")
+V("C17", "leader-slice-1-for-slashes", "fire", (SRC, "                value = value[2:].strip()", "                value = value[1:].strip()"), "'// nocl' leaves '/ nocl'", "leader-length")
+V("C17", "no-strip", "fire", (SRC, "                value = value[1:].strip()", "                value = value[1:]"), "'# nocl' has a leading blank", "strip")
+V("C17", "marker-upper-literal", "fire", (SRC, "return value.startswith(\"nocl\")", "return value.startswith(\"NOCL\")"), "compared after lower-casing with an upper-case literal", "marker-literal")
+V("C17", "line-of-first-header-token", "fire", (SU, "s.header.name_token.location.line not in nocl_comment_lines", "tokens_line(s) not in nocl_comment_lines"),
+  "line of another token decides", "which-line")
+VARIANTS[-1]["edits"].append((SU, "def has_name_prefix(", "def tokens_line(s):\n    return s.header.token_range.start\n\n\ndef has_name_prefix("))
+V("C17", "markers-from-filtered", "fire", (SU, "    nocl_comment_tokens = filter_nocl_comment_tokens(tokens)", "    nocl_comment_tokens = filter_nocl_comment_tokens(code_tokens)"),
+  "markers searched in the comment-free list", "marker-source")
+V("C17", "filter-after-nesting", "fire", (SU, "    if language.allow_nested_functions:\n        return fold_scopes(filtered_scopes)", "    if language.allow_nested_functions:\n        return fold_scopes(scopes)"),
+  "marked functions reported for nesting languages", "fold_scopes-input")
+V("C17", "casefold-silent", "silent", (SRC, "            value = token.value.lower()\n", "            value = token.value.casefold()\n"), "casefold instead of lower")
+V("C17", "set-of-lines-silent", "silent", (SU, "    nocl_comment_lines = [t.location.line for t in nocl_comment_tokens]", "    nocl_comment_lines = {t.location.line for t in nocl_comment_tokens}"), "set instead of list")
